@@ -622,6 +622,14 @@ def rule_r2(ctx) -> List[R.Inst]:
     # volume / pan split
     vp = [n for n in walk_no_nested(nf.node) if isinstance(n, ast.Assign) and isinstance(n.targets[0], ast.Tuple) and
           [unparse(t) for t in n.targets[0].elts] == ["volume", "pan"]]
+    if not vp:
+        # the two halves assigned by two statements: volume = ..; pan = ..
+        one = {t: [n for n in walk_no_nested(nf.node) if isinstance(n, ast.Assign) and len(n.targets) == 1 and unparse(n.targets[0]) == t] for t in ("volume", "pan")}
+        if len(one["volume"]) == 1 and len(one["pan"]) == 1:
+            a_, b_ = one["volume"][0], one["pan"][0]
+            vp = [ast.copy_location(ast.Assign(targets=[ast.Tuple(elts=[a_.targets[0], b_.targets[0]], ctx=ast.Store())],
+                                               value=ast.Tuple(elts=[a_.value, b_.value], ctx=ast.Load())), a_)]
+
     def _nibbles(v):
         if isinstance(v, ast.Tuple) and len(v.elts) == 2:
             return unparse(v.elts[0]) in (f"{vp_name} // 16", f"{vp_name} >> 4") and \
